@@ -22,7 +22,7 @@ import (
 func TestVerif_C37(t *testing.T) {
 	r := vrt.Begin(t, "C37", "model_checking")
 	defer r.End()
-	r.Rule("every scenario of the schedule-quantified checks (C13 worker pool, C18 HostClient pool, C12 limits, C15 shutdown, C16 timeout handler, C04/C38 clients, C17 hijack, and those of C25/C40/C41 when present) re-explored under the Go race detector with " +
+	r.Rule("every scenario of the schedule-quantified checks (C13 worker pool, C18 HostClient pool, C12 limits, C15 shutdown, C16 timeout handler, C04/C38 clients, C17 hijack, C40 LBClient, C41 TCPDialer, C25 FS handles) re-explored under the Go race detector with " +
 		"scheduler hand-offs hidden (RaceDisable) and shim primitives annotated with their real happens-before edges; every schedule up to the preemption bound is executed; " +
 		"violation: a detector report whose two access stacks both have a repository (non-test) frame on top; non-trivial: executions with >=1 deviation")
 	r.Assume("exactness of the happens-before annotations (race litmus suite: 17 racy / race-free programs per primitive give exactly the expected verdicts)",
@@ -30,8 +30,8 @@ func TestVerif_C37(t *testing.T) {
 	if !mcrt.RaceOn {
 		r.ToolError("C37 must be built with -race (profile mcrace)")
 	}
-	fns := []func(*testing.T){TestVerif_C13, TestVerif_C18, TestVerif_C12, TestVerif_C15, TestVerif_C04, TestVerif_C38, TestVerif_C17}
-	names := []string{"C13", "C18", "C12", "C15", "C04", "C38", "C17"}
+	fns := []func(*testing.T){TestVerif_C13, TestVerif_C18, TestVerif_C12, TestVerif_C15, TestVerif_C04, TestVerif_C38, TestVerif_C17, TestVerif_C16, TestVerif_C40, TestVerif_C41, TestVerif_C25}
+	names := []string{"C13", "C18", "C12", "C15", "C04", "C38", "C17", "C16", "C40", "C41", "C25"}
 	fns, names = append(fns, c37extra...), append(names, c37extraNames...)
 	scs := mcx.Collect(t, names, fns...)
 	bound := vrt.Pick(r, 1, 2)
